@@ -309,6 +309,16 @@ func maxWord(w int) uint64 {
 
 // ApplyBin applies one mutation of Inputs.tla to node t.
 func (a *BinArtifact) ApplyBin(t *BNode, op, arg string, rng *rand.Rand, inner InnerDERFunc) error {
+	// detached by an earlier mutation of the program: nothing to act on
+	for n := t; n != nil; n = n.Parent {
+		if n.Parent == nil {
+			if n != a.Root {
+				return ErrNA
+			}
+		} else if n.index() < 0 {
+			return ErrNA
+		}
+	}
 	isVec := t.F.T == "vec"
 	setWord := func(v uint64) {
 		if isVec {
